@@ -135,6 +135,11 @@ where
     let res = runner.run(strat, |v| {
         // after the first failure the closure is re-run for shrinking: tell it not to count
         let shrinking = failed.get();
+        if !shrinking {
+            // the log level is part of the environment and varies with the case's position in the sequence; while
+            // shrinking it stays what it was for the failing case
+            super::logctl::next_case();
+        }
         match f(&v, shrinking) {
             Ok(()) => Ok(()),
             Err(sig) => {
@@ -163,6 +168,7 @@ where
 
 /// generate one value from a strategy with a given runner (for hybrid enumerate x random loops)
 pub fn sample<S: Strategy>(runner: &mut TestRunner, strat: &S) -> S::Value {
+    super::logctl::next_case();
     strat.new_tree(runner).expect("strategy").current()
 }
 
